@@ -108,7 +108,7 @@ func Families(tier string) []Family {
 	// scalar-n: int / float, mandatory and optional value (C01)
 	{
 		f := Family{Name: "scalar-n"}
-		toks := Ts("--i", "--i=1", "--i=-1", "--i=1x", "--i=1..3", "--io", "--io=2", "--f", "--f=1.5", "--f=x", "--fo", "1", "-1", "1x", "1.5", "1..3", "--b", "--")
+		toks := Ts("--i", "--i=1", "--i=-1", "--i=1x", "--i=1..3", "--i=010", "--io", "--io=2", "--f", "--f=1.5", "--f=x", "--fo", "1", "-1", "1x", "1.5", "1..3", "0x10", "--b", "--")
 		for mode := 0; mode < 3; mode++ {
 			c := Cfg{Mode: mode}
 			c.Nodes = []NodeCfg{rootNode(0, false)}
@@ -197,6 +197,15 @@ func Families(tier string) []Family {
 				f.Defs = append(f.Defs, Def{Cfg: c, Tokens: toks, L: lim(tier, 3, 4)})
 			}
 		}
+		// Called / CalledAs / Value read through the top-level object after a wrapper or the help command was selected
+		for mode := 0; mode < 2; mode++ {
+			c := Cfg{Mode: mode}
+			c.Nodes = []NodeCfg{rootNode(2, false), cmdNode("w", 1, 2, false, true), cmdNode("plain", 1, 2, false, true)}
+			c.Nodes[1].Unset = true
+			c.Opts = []OptCfg{opt("bool", "opt", 1, "o", "alt"), opt("string", "other", 1), opt("bool", "wo", 2)}
+			c = WithHelp(c, "help")
+			f.Defs = append(f.Defs, Def{Cfg: c, Tokens: Ts("--opt", "--alt", "--other=x", "w", "plain", "help", "--wo", "x"), L: lim(tier, 3, 4)})
+		}
 		// Called / CalledAs through the environment: only true/false (any case) count for a bool
 		for _, ev := range []string{"1", "t", "True", "0", "FALSE", "yes"} {
 			for _, defb := range []bool{false, true} {
@@ -212,16 +221,36 @@ func Families(tier string) []Family {
 		}
 		fams = append(fams, f)
 	}
-	// modes: single-dash tokens of every shape, multibyte letters (C07)
+	// modes: single-dash tokens of every shape, multibyte letters, before and after a command token; the mode may be set
+	// before or after the commands are declared (C07)
 	{
 		f := Family{Name: "modes"}
-		toks := Ts("-xy", "-xyz", "-xys", "-xys=v", "-s=v", "-sv", "-é", "-üv", "-xq", "--xy", "--s=v", "v", "-x", "-s", "-sx")
+		toks := Ts("-xy", "-xyz", "-xys", "-xys=v", "-s=v", "-sv", "-é", "-üv", "-xq", "--xy", "--s=v", "v", "-x", "-s", "-sx", "cmd")
 		for mode := 0; mode < 3; mode++ {
 			for _, um := range []int{0, 2} {
-				c := Cfg{Mode: mode}
-				c.Nodes = []NodeCfg{rootNode(um, false)}
-				c.Opts = []OptCfg{opt("bool", "x", 1), opt("bool", "y", 1), opt("incr", "z", 1), opt("string", "s", 1, "sv"),
-					opt("bool", "é", 1), opt("string", "ü", 1)}
+				for _, late := range []bool{false, true} {
+					if late && um != 0 {
+						continue
+					}
+					c := Cfg{Mode: mode, Late: late}
+					c.Nodes = []NodeCfg{rootNode(um, false), cmdNode("cmd", 1, um, false, true)}
+					c.Opts = []OptCfg{opt("bool", "x", 1), opt("bool", "y", 1), opt("incr", "z", 1), opt("string", "s", 1, "sv"),
+						opt("bool", "é", 1), opt("string", "ü", 1)}
+					f.Defs = append(f.Defs, Def{Cfg: c, Tokens: toks, L: lim(tier, 3, 4)})
+				}
+			}
+		}
+		fams = append(fams, f)
+	}
+	// conserve-n: what ends the intake of typed multi-value options stays in remaining (C03)
+	{
+		f := Family{Name: "conserve-n"}
+		toks := Ts("--n", "--f", "--m", "1", "1.5", "k=v", "a", "", "--", "--b", "cmd")
+		for mode := 0; mode < 3; mode++ {
+			for _, um := range []int{0, 2} {
+				c := Cfg{Mode: mode, Late: mode == 1}
+				c.Nodes = []NodeCfg{rootNode(um, false), cmdNode("cmd", 1, um, false, true)}
+				c.Opts = []OptCfg{opt("bool", "b", 1), multi("islice", "n", 1, 1, 2), multi("fslice", "f", 1, 1, 2), multi("smap", "m", 1, 1, 2)}
 				f.Defs = append(f.Defs, Def{Cfg: c, Tokens: toks, L: lim(tier, 3, 4)})
 			}
 		}
